@@ -46,19 +46,19 @@ theorem gen_map_find_loop (h : Nat → Nat) (t : PTable) (k hc : Nat) (fuel : Na
 /-- The translated `HashMap::find(key)` is the model's `find` (the walk along `nextCell` from the bucket head), for EVERY
     table, key and hash function: the iterator of the item, `end()` if there is none; out of fuel iff the model is. -/
 theorem gen_map_find (h : Nat → Nat) (t : PTable) (k : Nat) :
-    HashLink.HashMap.find h t.size t k = (t.find h k).map (findResult t) := by
+    HashLink.HashMap.find h t k = (t.find h k).map (findResult t) := by
   unfold HashLink.HashMap.find PTable.find
   by_cases ha : t.allocated = true
   · simp only [ha, if_true]; exact gen_map_find_loop h t k _ _ _
   · simp [ha, iterOf, findResult]
 
-theorem gen_map_removeIt_k2 (h : Nat → Nat) (fuel : Nat) (t : PTable) (it : Nxt) (item : Nat) :
-    HashLink.HashMap.removeIt_k2 h fuel t it item =
+theorem gen_map_removeIt_k2 (h : Nat → Nat) (t : PTable) (it : Nxt) (item : Nat) :
+    HashLink.HashMap.removeIt_k2 h t it item =
       some ({ ({ t with size := t.size - 1 } : PTable).setPrev item t.freeItem with freeItem := some item },
             ((({ t with size := t.size - 1 } : PTable).setPrev item t.freeItem).items item).next) := rfl
 
-theorem gen_map_removeIt_k1 (h : Nat → Nat) (fuel : Nat) (t : PTable) (it : Nxt) (item : Nat) :
-    HashLink.HashMap.removeIt_k1 h fuel t it item =
+theorem gen_map_removeIt_k1 (h : Nat → Nat) (t : PTable) (it : Nxt) (item : Nat) :
+    HashLink.HashMap.removeIt_k1 h t it item =
       some ({ (t.unlinkOrder item).setPrev item (t.unlinkOrder item).freeItem with freeItem := some item },
             (((t.unlinkOrder item).setPrev item (t.unlinkOrder item).freeItem).items item).next) := by
   unfold HashLink.HashMap.removeIt_k1 PTable.unlinkOrder
@@ -68,21 +68,21 @@ theorem gen_map_removeIt_k1 (h : Nat → Nat) (fuel : Nat) (t : PTable) (it : Nx
 /-- The translated `HashMap::remove(const Iterator&)` is the model's `removeItem` (unlink from the bucket chain through the
     `cell` back-pointer, unlink from the order list, push on the free list, return `item->next` read AFTER the release) on
     every table in which the item's `cell` does not designate the item's own `nextCell`. -/
-theorem gen_map_removeIt (h : Nat → Nat) (fuel : Nat) (t : PTable) (item : Nat) (hc : (t.items item).cell ≠ .nextOf item) :
-    HashLink.HashMap.removeIt h fuel t (.item item) = some (t.removeItem item) := by
+theorem gen_map_removeIt (h : Nat → Nat) (t : PTable) (item : Nat) (hc : (t.items item).cell ≠ .nextOf item) :
+    HashLink.HashMap.removeIt h t (.item item) = some (t.removeItem item) := by
   unfold HashLink.HashMap.removeIt PTable.removeItem PTable.unlinkChain
   simp only [gen_map_removeIt_k1]
   cases h1 : (t.items item).nextCell <;> simp only [writeCell_items_ne t _ _ item hc, h1]
 
 /-- … hence on every table that represents a model state, for every live item. -/
-theorem gen_map_removeIt_rel {h : Nat → Nat} {pt : PTable} {t : Table} (hr : Rel pt t) (hi : t.Inv h) (fuel id : Nat)
-    (hm : id ∈ t.order) : HashLink.HashMap.removeIt h fuel pt (.item id) = some (pt.removeItem id) :=
-  gen_map_removeIt h fuel pt id (hr.cell_ne_self hi id hm)
+theorem gen_map_removeIt_rel {h : Nat → Nat} {pt : PTable} {t : Table} (hr : Rel pt t) (hi : t.Inv h) (id : Nat)
+    (hm : id ∈ t.order) : HashLink.HashMap.removeIt h pt (.item id) = some (pt.removeItem id) :=
+  gen_map_removeIt h pt id (hr.cell_ne_self hi id hm)
 
 /-- The translated `HashMap::remove(const T& key)` (`find`, then `remove(it)` unless `end()`) is the model's `removeKey` on
     every table that represents a model state. -/
 theorem gen_map_removeKey {h : Nat → Nat} {pt : PTable} {t : Table} (hr : Rel pt t) (hi : t.Inv h) (k : Nat) :
-    HashLink.HashMap.removeKey h pt.size pt k = pt.removeKey h k := by
+    HashLink.HashMap.removeKey h pt k = pt.removeKey h k := by
   unfold HashLink.HashMap.removeKey PTable.removeKey
   rw [gen_map_find]
   cases hf : pt.find h k with
@@ -92,23 +92,23 @@ theorem gen_map_removeKey {h : Nat → Nat} {pt : PTable} {t : Table} (hr : Rel 
     | none => simp [findResult, iterOf]
     | some id =>
       have hm := hr.find_mem hi k id hf
-      simp [findResult, iterOf, gen_map_removeIt_rel hr hi _ id hm]
+      simp [findResult, iterOf, gen_map_removeIt_rel hr hi id hm]
 
 /-- The translated `removeFront()` / `removeBack()` are `remove(_begin)` / `remove(_end.item->prev)`: the model's `removeItem`
     of the first / last item; a fault on the empty table (`removeBack`: the null `endItem.prev` made an iterator and
     dereferenced; `removeFront`: the fields of the sentinel). -/
-theorem gen_map_removeFront {h : Nat → Nat} {pt : PTable} {t : Table} (hr : Rel pt t) (hi : t.Inv h) (fuel : Nat) :
-    HashLink.HashMap.removeFront h fuel pt = (match t.order.head? with | some id => some (pt.removeItem id) | none => none) := by
+theorem gen_map_removeFront {h : Nat → Nat} {pt : PTable} {t : Table} (hr : Rel pt t) (hi : t.Inv h) :
+    HashLink.HashMap.removeFront h pt = (match t.order.head? with | some id => some (pt.removeItem id) | none => none) := by
   unfold HashLink.HashMap.removeFront
   rw [hr.begin_eq]
   cases ho : t.order with
   | nil => simp [HashLink.HashMap.removeIt]
   | cons x r =>
     have hm : x ∈ t.order := by rw [ho]; exact List.mem_cons_self
-    simp [gen_map_removeIt_rel hr hi _ x hm]
+    simp [gen_map_removeIt_rel hr hi x hm]
 
-theorem gen_map_removeBack {h : Nat → Nat} {pt : PTable} {t : Table} (hr : Rel pt t) (hi : t.Inv h) (fuel : Nat) :
-    HashLink.HashMap.removeBack h fuel pt = (match pt.endPrev with | some id => some (pt.removeItem id) | none => none) := by
+theorem gen_map_removeBack {h : Nat → Nat} {pt : PTable} {t : Table} (hr : Rel pt t) (hi : t.Inv h) :
+    HashLink.HashMap.removeBack h pt = (match pt.endPrev with | some id => some (pt.removeItem id) | none => none) := by
   unfold HashLink.HashMap.removeBack
   simp only [PTable.prevOf]
   cases he : pt.endPrev with
@@ -117,25 +117,25 @@ theorem gen_map_removeBack {h : Nat → Nat} {pt : PTable} {t : Table} (hr : Rel
     have hm : x ∈ t.order := by
       have := hr.endPrev_eq; rw [he] at this
       exact List.mem_of_getLast? this.symm
-    simp [gen_map_removeIt_rel hr hi _ x hm]
+    simp [gen_map_removeIt_rel hr hi x hm]
 
-theorem gen_map_insert_k3 (h : Nat → Nat) (fuel : Nat) (t : PTable) (pos : Nxt) (k v : Nat) (it : Nxt) (item hc : Nat) (c : CellRef) (ip : Nxt) :
-    HashLink.HashMap.insert_k3 h fuel t pos k v it item hc c ip =
+theorem gen_map_insert_k3 (h : Nat → Nat) (t : PTable) (pos : Nxt) (k v : Nat) (it : Nxt) (item hc : Nat) (c : CellRef) (ip : Nxt) :
+    HashLink.HashMap.insert_k3 h t pos k v it item hc c ip =
       some ({ (t.setNext item ip).setPrevOf ip (some item) with size := ((t.setNext item ip).setPrevOf ip (some item)).size + 1 }, .item item) := rfl
 
-theorem gen_map_insert_k2 (h : Nat → Nat) (fuel : Nat) (t : PTable) (pos : Nxt) (k v : Nat) (it : Nxt) (item hc : Nat) (c : CellRef)
+theorem gen_map_insert_k2 (h : Nat → Nat) (t : PTable) (pos : Nxt) (k v : Nat) (it : Nxt) (item hc : Nat) (c : CellRef)
     (hp : pos ≠ .item item) :
-    HashLink.HashMap.insert_k2 h fuel t pos k v it item hc c = some ((t.writeCell c (some item)).linkOrder item pos, .item item) := by
+    HashLink.HashMap.insert_k2 h t pos k v it item hc c = some ((t.writeCell c (some item)).linkOrder item pos, .item item) := by
   unfold HashLink.HashMap.insert_k2 PTable.linkOrder
   simp only [gen_map_insert_k3, prevOf_setPrev _ _ _ _ hp]
   cases hq : (t.writeCell c (some item)).prevOf pos <;> rfl
 
-theorem gen_map_insert_k1 (h : Nat → Nat) (fuel : Nat) (t : PTable) (pos : Nxt) (k v : Nat) (it : Nxt) (item : Nat)
+theorem gen_map_insert_k1 (h : Nat → Nat) (t : PTable) (pos : Nxt) (k v : Nat) (it : Nxt) (item : Nat)
     (hp : pos ≠ .item item) :
-    HashLink.HashMap.insert_k1 h fuel t pos k v it item =
+    HashLink.HashMap.insert_k1 h t pos k v it item =
       some ((t.linkChain Kind.map item (h k % t.cap) k v).linkOrder item pos, .item item) := by
   unfold HashLink.HashMap.insert_k1 PTable.linkChain
-  simp only [gen_map_insert_k2 _ _ _ _ _ _ _ _ _ _ hp]
+  simp only [gen_map_insert_k2 _ _ _ _ _ _ _ _ _ hp]
   simp only [PTable.constructAt, PTable.setCell, PTable.setNextCell, PTable.readCell, PTable.writeCell, upd_same, upd_upd, Table.storedValue, if_true]
   cases hh : t.heads (h k % t.cap) <;> rfl
 
@@ -144,7 +144,7 @@ theorem gen_map_insert_k1 (h : Nat → Nat) (fuel : Nat) (t : PTable) (pos : Nxt
     the front of the bucket chain, link before `position` – on every table on which the item the allocator hands out is not
     the one `position` designates. -/
 theorem gen_map_insert (h : Nat → Nat) (t : PTable) (pos : Nxt) (k v : Nat) (hp : pos ≠ .item (t.allocItem Kind.map).1) :
-    HashLink.HashMap.insert h t.size t pos k v = (t.insert Kind.map h pos k v).map (fun r => (r.1, Nxt.item r.2)) := by
+    HashLink.HashMap.insert h t pos k v = (t.insert Kind.map h pos k v).map (fun r => (r.1, Nxt.item r.2)) := by
   unfold HashLink.HashMap.insert PTable.insert
   rw [gen_map_find]
   cases hf : t.find h k with
@@ -164,14 +164,14 @@ theorem gen_map_insert (h : Nat → Nat) (t : PTable) (pos : Nxt) (k v : Nat) (h
       cases hfree : t0.freeItem with
       | some f =>
         simp only [hfree] at hp ⊢
-        rw [gen_map_insert_k1 _ _ _ _ _ _ _ _ hp]
+        rw [gen_map_insert_k1 _ _ _ _ _ _ _ hp]
       | none =>
         simp only [hfree, PTable.newBlockFirst, reduceCtorEq, if_false] at hp ⊢
-        rw [gen_map_insert_k1 _ _ _ _ _ _ _ _ hp]
+        rw [gen_map_insert_k1 _ _ _ _ _ _ _ hp]
 
 /-- … hence on every table that represents a model state, for every position `p ≤ size` (`size` = `end()`). -/
 theorem gen_map_insert_rel {h : Nat → Nat} {pt : PTable} {t : Table} (hr : Rel pt t) (hi : t.Inv h) (p k v : Nat) :
-    HashLink.HashMap.insert h pt.size pt (nxtAt pt.self t.order p) k v =
+    HashLink.HashMap.insert h pt (nxtAt pt.self t.order p) k v =
       (pt.insert Kind.map h (nxtAt pt.self t.order p) k v).map (fun r => (r.1, Nxt.item r.2)) :=
   gen_map_insert h pt _ k v (hr.alloc_ne_pos hi Kind.map p)
 
@@ -204,7 +204,7 @@ theorem gen_map_clear_loop (h : Nat → Nat) (fuel : Nat) : ∀ (t : PTable) (i 
 /-- The translated `HashMap::clear()` is the model's `clear` (`*i->cell = 0; i->prev = freeItem; freeItem = i` along `next`
     up to the own sentinel, then the list members reset), for EVERY table; a fault on a foreign sentinel / out of fuel iff the
     model faults. -/
-theorem gen_map_clear (h : Nat → Nat) (t : PTable) : HashLink.HashMap.clear h t.size t = t.clear := by
+theorem gen_map_clear (h : Nat → Nat) (t : PTable) : HashLink.HashMap.clear h t = t.clear := by
   unfold HashLink.HashMap.clear PTable.clear
   rw [gen_map_clear_loop]
   cases PTable.clearLoop t.size t.begin t <;> rfl
@@ -236,19 +236,19 @@ theorem gen_set_find_loop (h : Nat → Nat) (t : PTable) (k hc : Nat) (fuel : Na
 /-- The translated `HashSet::find(key)` is the model's `find` (the walk along `nextCell` from the bucket head), for EVERY
     table, key and hash function: the iterator of the item, `end()` if there is none; out of fuel iff the model is. -/
 theorem gen_set_find (h : Nat → Nat) (t : PTable) (k : Nat) :
-    HashLink.HashSet.find h t.size t k = (t.find h k).map (findResult t) := by
+    HashLink.HashSet.find h t k = (t.find h k).map (findResult t) := by
   unfold HashLink.HashSet.find PTable.find
   by_cases ha : t.allocated = true
   · simp only [ha, if_true]; exact gen_set_find_loop h t k _ _ _
   · simp [ha, iterOf, findResult]
 
-theorem gen_set_removeIt_k2 (h : Nat → Nat) (fuel : Nat) (t : PTable) (it : Nxt) (item : Nat) :
-    HashLink.HashSet.removeIt_k2 h fuel t it item =
+theorem gen_set_removeIt_k2 (h : Nat → Nat) (t : PTable) (it : Nxt) (item : Nat) :
+    HashLink.HashSet.removeIt_k2 h t it item =
       some ({ ({ t with size := t.size - 1 } : PTable).setPrev item t.freeItem with freeItem := some item },
             ((({ t with size := t.size - 1 } : PTable).setPrev item t.freeItem).items item).next) := rfl
 
-theorem gen_set_removeIt_k1 (h : Nat → Nat) (fuel : Nat) (t : PTable) (it : Nxt) (item : Nat) :
-    HashLink.HashSet.removeIt_k1 h fuel t it item =
+theorem gen_set_removeIt_k1 (h : Nat → Nat) (t : PTable) (it : Nxt) (item : Nat) :
+    HashLink.HashSet.removeIt_k1 h t it item =
       some ({ (t.unlinkOrder item).setPrev item (t.unlinkOrder item).freeItem with freeItem := some item },
             (((t.unlinkOrder item).setPrev item (t.unlinkOrder item).freeItem).items item).next) := by
   unfold HashLink.HashSet.removeIt_k1 PTable.unlinkOrder
@@ -258,21 +258,21 @@ theorem gen_set_removeIt_k1 (h : Nat → Nat) (fuel : Nat) (t : PTable) (it : Nx
 /-- The translated `HashSet::remove(const Iterator&)` is the model's `removeItem` (unlink from the bucket chain through the
     `cell` back-pointer, unlink from the order list, push on the free list, return `item->next` read AFTER the release) on
     every table in which the item's `cell` does not designate the item's own `nextCell`. -/
-theorem gen_set_removeIt (h : Nat → Nat) (fuel : Nat) (t : PTable) (item : Nat) (hc : (t.items item).cell ≠ .nextOf item) :
-    HashLink.HashSet.removeIt h fuel t (.item item) = some (t.removeItem item) := by
+theorem gen_set_removeIt (h : Nat → Nat) (t : PTable) (item : Nat) (hc : (t.items item).cell ≠ .nextOf item) :
+    HashLink.HashSet.removeIt h t (.item item) = some (t.removeItem item) := by
   unfold HashLink.HashSet.removeIt PTable.removeItem PTable.unlinkChain
   simp only [gen_set_removeIt_k1]
   cases h1 : (t.items item).nextCell <;> simp only [writeCell_items_ne t _ _ item hc, h1]
 
 /-- … hence on every table that represents a model state, for every live item. -/
-theorem gen_set_removeIt_rel {h : Nat → Nat} {pt : PTable} {t : Table} (hr : Rel pt t) (hi : t.Inv h) (fuel id : Nat)
-    (hm : id ∈ t.order) : HashLink.HashSet.removeIt h fuel pt (.item id) = some (pt.removeItem id) :=
-  gen_set_removeIt h fuel pt id (hr.cell_ne_self hi id hm)
+theorem gen_set_removeIt_rel {h : Nat → Nat} {pt : PTable} {t : Table} (hr : Rel pt t) (hi : t.Inv h) (id : Nat)
+    (hm : id ∈ t.order) : HashLink.HashSet.removeIt h pt (.item id) = some (pt.removeItem id) :=
+  gen_set_removeIt h pt id (hr.cell_ne_self hi id hm)
 
 /-- The translated `HashSet::remove(const T& key)` (`find`, then `remove(it)` unless `end()`) is the model's `removeKey` on
     every table that represents a model state. -/
 theorem gen_set_removeKey {h : Nat → Nat} {pt : PTable} {t : Table} (hr : Rel pt t) (hi : t.Inv h) (k : Nat) :
-    HashLink.HashSet.removeKey h pt.size pt k = pt.removeKey h k := by
+    HashLink.HashSet.removeKey h pt k = pt.removeKey h k := by
   unfold HashLink.HashSet.removeKey PTable.removeKey
   rw [gen_set_find]
   cases hf : pt.find h k with
@@ -282,23 +282,23 @@ theorem gen_set_removeKey {h : Nat → Nat} {pt : PTable} {t : Table} (hr : Rel 
     | none => simp [findResult, iterOf]
     | some id =>
       have hm := hr.find_mem hi k id hf
-      simp [findResult, iterOf, gen_set_removeIt_rel hr hi _ id hm]
+      simp [findResult, iterOf, gen_set_removeIt_rel hr hi id hm]
 
 /-- The translated `removeFront()` / `removeBack()` are `remove(_begin)` / `remove(_end.item->prev)`: the model's `removeItem`
     of the first / last item; a fault on the empty table (`removeBack`: the null `endItem.prev` made an iterator and
     dereferenced; `removeFront`: the fields of the sentinel). -/
-theorem gen_set_removeFront {h : Nat → Nat} {pt : PTable} {t : Table} (hr : Rel pt t) (hi : t.Inv h) (fuel : Nat) :
-    HashLink.HashSet.removeFront h fuel pt = (match t.order.head? with | some id => some (pt.removeItem id) | none => none) := by
+theorem gen_set_removeFront {h : Nat → Nat} {pt : PTable} {t : Table} (hr : Rel pt t) (hi : t.Inv h) :
+    HashLink.HashSet.removeFront h pt = (match t.order.head? with | some id => some (pt.removeItem id) | none => none) := by
   unfold HashLink.HashSet.removeFront
   rw [hr.begin_eq]
   cases ho : t.order with
   | nil => simp [HashLink.HashSet.removeIt]
   | cons x r =>
     have hm : x ∈ t.order := by rw [ho]; exact List.mem_cons_self
-    simp [gen_set_removeIt_rel hr hi _ x hm]
+    simp [gen_set_removeIt_rel hr hi x hm]
 
-theorem gen_set_removeBack {h : Nat → Nat} {pt : PTable} {t : Table} (hr : Rel pt t) (hi : t.Inv h) (fuel : Nat) :
-    HashLink.HashSet.removeBack h fuel pt = (match pt.endPrev with | some id => some (pt.removeItem id) | none => none) := by
+theorem gen_set_removeBack {h : Nat → Nat} {pt : PTable} {t : Table} (hr : Rel pt t) (hi : t.Inv h) :
+    HashLink.HashSet.removeBack h pt = (match pt.endPrev with | some id => some (pt.removeItem id) | none => none) := by
   unfold HashLink.HashSet.removeBack
   simp only [PTable.prevOf]
   cases he : pt.endPrev with
@@ -307,25 +307,25 @@ theorem gen_set_removeBack {h : Nat → Nat} {pt : PTable} {t : Table} (hr : Rel
     have hm : x ∈ t.order := by
       have := hr.endPrev_eq; rw [he] at this
       exact List.mem_of_getLast? this.symm
-    simp [gen_set_removeIt_rel hr hi _ x hm]
+    simp [gen_set_removeIt_rel hr hi x hm]
 
-theorem gen_set_insert_k3 (h : Nat → Nat) (fuel : Nat) (t : PTable) (pos : Nxt) (k : Nat) (it : Nxt) (item hc : Nat) (c : CellRef) (ip : Nxt) :
-    HashLink.HashSet.insert_k3 h fuel t pos k it item hc c ip =
+theorem gen_set_insert_k3 (h : Nat → Nat) (t : PTable) (pos : Nxt) (k : Nat) (it : Nxt) (item hc : Nat) (c : CellRef) (ip : Nxt) :
+    HashLink.HashSet.insert_k3 h t pos k it item hc c ip =
       some ({ (t.setNext item ip).setPrevOf ip (some item) with size := ((t.setNext item ip).setPrevOf ip (some item)).size + 1 }, .item item) := rfl
 
-theorem gen_set_insert_k2 (h : Nat → Nat) (fuel : Nat) (t : PTable) (pos : Nxt) (k : Nat) (it : Nxt) (item hc : Nat) (c : CellRef)
+theorem gen_set_insert_k2 (h : Nat → Nat) (t : PTable) (pos : Nxt) (k : Nat) (it : Nxt) (item hc : Nat) (c : CellRef)
     (hp : pos ≠ .item item) :
-    HashLink.HashSet.insert_k2 h fuel t pos k it item hc c = some ((t.writeCell c (some item)).linkOrder item pos, .item item) := by
+    HashLink.HashSet.insert_k2 h t pos k it item hc c = some ((t.writeCell c (some item)).linkOrder item pos, .item item) := by
   unfold HashLink.HashSet.insert_k2 PTable.linkOrder
   simp only [gen_set_insert_k3, prevOf_setPrev _ _ _ _ hp]
   cases hq : (t.writeCell c (some item)).prevOf pos <;> rfl
 
-theorem gen_set_insert_k1 (h : Nat → Nat) (fuel : Nat) (t : PTable) (pos : Nxt) (k v : Nat) (it : Nxt) (item : Nat)
+theorem gen_set_insert_k1 (h : Nat → Nat) (t : PTable) (pos : Nxt) (k v : Nat) (it : Nxt) (item : Nat)
     (hp : pos ≠ .item item) :
-    HashLink.HashSet.insert_k1 h fuel t pos k it item =
+    HashLink.HashSet.insert_k1 h t pos k it item =
       some ((t.linkChain Kind.set item (h k % t.cap) k v).linkOrder item pos, .item item) := by
   unfold HashLink.HashSet.insert_k1 PTable.linkChain
-  simp only [gen_set_insert_k2 _ _ _ _ _ _ _ _ _ hp]
+  simp only [gen_set_insert_k2 _ _ _ _ _ _ _ _ hp]
   simp only [PTable.constructAt, PTable.setCell, PTable.setNextCell, PTable.readCell, PTable.writeCell, upd_same, upd_upd, Table.storedValue, reduceCtorEq, if_false]
   cases hh : t.heads (h k % t.cap) <;> rfl
 
@@ -334,7 +334,7 @@ theorem gen_set_insert_k1 (h : Nat → Nat) (fuel : Nat) (t : PTable) (pos : Nxt
     the front of the bucket chain, link before `position` – on every table on which the item the allocator hands out is not
     the one `position` designates. -/
 theorem gen_set_insert (h : Nat → Nat) (t : PTable) (pos : Nxt) (k v : Nat) (hp : pos ≠ .item (t.allocItem Kind.set).1) :
-    HashLink.HashSet.insert h t.size t pos k = (t.insert Kind.set h pos k v).map (fun r => (r.1, Nxt.item r.2)) := by
+    HashLink.HashSet.insert h t pos k = (t.insert Kind.set h pos k v).map (fun r => (r.1, Nxt.item r.2)) := by
   unfold HashLink.HashSet.insert PTable.insert
   rw [gen_set_find]
   cases hf : t.find h k with
@@ -354,14 +354,14 @@ theorem gen_set_insert (h : Nat → Nat) (t : PTable) (pos : Nxt) (k v : Nat) (h
       cases hfree : t0.freeItem with
       | some f =>
         simp only [hfree] at hp ⊢
-        rw [gen_set_insert_k1 _ _ _ _ _ v _ _ hp]
+        rw [gen_set_insert_k1 _ _ _ _ v _ _ hp]
       | none =>
         simp only [hfree, PTable.newBlockFirst, reduceCtorEq, if_false] at hp ⊢
-        rw [gen_set_insert_k1 _ _ _ _ _ v _ _ hp]
+        rw [gen_set_insert_k1 _ _ _ _ v _ _ hp]
 
 /-- … hence on every table that represents a model state, for every position `p ≤ size` (`size` = `end()`). -/
 theorem gen_set_insert_rel {h : Nat → Nat} {pt : PTable} {t : Table} (hr : Rel pt t) (hi : t.Inv h) (p k v : Nat) :
-    HashLink.HashSet.insert h pt.size pt (nxtAt pt.self t.order p) k =
+    HashLink.HashSet.insert h pt (nxtAt pt.self t.order p) k =
       (pt.insert Kind.set h (nxtAt pt.self t.order p) k v).map (fun r => (r.1, Nxt.item r.2)) :=
   gen_set_insert h pt _ k v (hr.alloc_ne_pos hi Kind.set p)
 
@@ -394,7 +394,7 @@ theorem gen_set_clear_loop (h : Nat → Nat) (fuel : Nat) : ∀ (t : PTable) (i 
 /-- The translated `HashSet::clear()` is the model's `clear` (`*i->cell = 0; i->prev = freeItem; freeItem = i` along `next`
     up to the own sentinel, then the list members reset), for EVERY table; a fault on a foreign sentinel / out of fuel iff the
     model faults. -/
-theorem gen_set_clear (h : Nat → Nat) (t : PTable) : HashLink.HashSet.clear h t.size t = t.clear := by
+theorem gen_set_clear (h : Nat → Nat) (t : PTable) : HashLink.HashSet.clear h t = t.clear := by
   unfold HashLink.HashSet.clear PTable.clear
   rw [gen_set_clear_loop]
   cases PTable.clearLoop t.size t.begin t <;> rfl
@@ -427,18 +427,18 @@ theorem gen_pool_find_loop (h : Nat → Nat) (t : PTable) (k hc : Nat) (fuel : N
 /-- The translated `PoolMap::find(key)` is the model's `find` (the walk along `nextCell` from the bucket head), for EVERY
     table, key and hash function: the iterator of the item, `end()` if there is none; out of fuel iff the model is. -/
 theorem gen_pool_find (h : Nat → Nat) (t : PTable) (k : Nat) :
-    HashLink.PoolMap.find h t.size t k = (t.find h k).map (findResult t) := by
+    HashLink.PoolMap.find h t k = (t.find h k).map (findResult t) := by
   unfold HashLink.PoolMap.find PTable.find
   by_cases ha : t.allocated = true
   · simp only [ha, if_true]; exact gen_pool_find_loop h t k _ _ _
   · simp [ha, iterOf, findResult]
 
-theorem gen_pool_removeValue_k2 (h : Nat → Nat) (fuel : Nat) (t : PTable) (value : Nat) (item : Nat) :
-    HashLink.PoolMap.removeValue_k2 h fuel t value item =
+theorem gen_pool_removeValue_k2 (h : Nat → Nat) (t : PTable) (value : Nat) (item : Nat) :
+    HashLink.PoolMap.removeValue_k2 h t value item =
       some { ({ t with size := t.size - 1 } : PTable).setPrev item t.freeItem with freeItem := some item } := rfl
 
-theorem gen_pool_removeValue_k1 (h : Nat → Nat) (fuel : Nat) (t : PTable) (value : Nat) (item : Nat) :
-    HashLink.PoolMap.removeValue_k1 h fuel t value item =
+theorem gen_pool_removeValue_k1 (h : Nat → Nat) (t : PTable) (value : Nat) (item : Nat) :
+    HashLink.PoolMap.removeValue_k1 h t value item =
       some { (t.unlinkOrder item).setPrev item (t.unlinkOrder item).freeItem with freeItem := some item } := by
   unfold HashLink.PoolMap.removeValue_k1 PTable.unlinkOrder
   simp only [gen_pool_removeValue_k2]
@@ -446,29 +446,29 @@ theorem gen_pool_removeValue_k1 (h : Nat → Nat) (fuel : Nat) (t : PTable) (val
 
 /-- The translated `PoolMap::remove(const V& value)` (`item` = the item the value lives in) is the table the model's
     `removeItem` yields, on every table in which the item's `cell` does not designate the item's own `nextCell`. -/
-theorem gen_pool_removeValue (h : Nat → Nat) (fuel : Nat) (t : PTable) (item : Nat) (hc : (t.items item).cell ≠ .nextOf item) :
-    HashLink.PoolMap.removeValue h fuel t item = some (t.removeItem item).1 := by
+theorem gen_pool_removeValue (h : Nat → Nat) (t : PTable) (item : Nat) (hc : (t.items item).cell ≠ .nextOf item) :
+    HashLink.PoolMap.removeValue h t item = some (t.removeItem item).1 := by
   unfold HashLink.PoolMap.removeValue PTable.removeItem PTable.unlinkChain
   simp only [gen_pool_removeValue_k1]
   cases h1 : (t.items item).nextCell <;> simp only [writeCell_items_ne t _ _ item hc, h1]
 
 /-- The translated `PoolMap::remove(const Iterator&)` (`remove(item->value); return item->next;`) is the model's `removeItem`:
     `item->next` is read from the released item. -/
-theorem gen_pool_removeIt (h : Nat → Nat) (fuel : Nat) (t : PTable) (item : Nat) (hc : (t.items item).cell ≠ .nextOf item) :
-    HashLink.PoolMap.removeIt h fuel t (.item item) = some (t.removeItem item) := by
+theorem gen_pool_removeIt (h : Nat → Nat) (t : PTable) (item : Nat) (hc : (t.items item).cell ≠ .nextOf item) :
+    HashLink.PoolMap.removeIt h t (.item item) = some (t.removeItem item) := by
   unfold HashLink.PoolMap.removeIt
-  simp only [gen_pool_removeValue h fuel t item hc]
+  simp only [gen_pool_removeValue h t item hc]
   rfl
 
 /-- … hence on every table that represents a model state, for every live item. -/
-theorem gen_pool_removeIt_rel {h : Nat → Nat} {pt : PTable} {t : Table} (hr : Rel pt t) (hi : t.Inv h) (fuel id : Nat)
-    (hm : id ∈ t.order) : HashLink.PoolMap.removeIt h fuel pt (.item id) = some (pt.removeItem id) :=
-  gen_pool_removeIt h fuel pt id (hr.cell_ne_self hi id hm)
+theorem gen_pool_removeIt_rel {h : Nat → Nat} {pt : PTable} {t : Table} (hr : Rel pt t) (hi : t.Inv h) (id : Nat)
+    (hm : id ∈ t.order) : HashLink.PoolMap.removeIt h pt (.item id) = some (pt.removeItem id) :=
+  gen_pool_removeIt h pt id (hr.cell_ne_self hi id hm)
 
 /-- The translated `PoolMap::remove(const T& key)` (`find`, then `remove(it)` unless `end()`) is the model's `removeKey` on
     every table that represents a model state. -/
 theorem gen_pool_removeKey {h : Nat → Nat} {pt : PTable} {t : Table} (hr : Rel pt t) (hi : t.Inv h) (k : Nat) :
-    HashLink.PoolMap.removeKey h pt.size pt k = pt.removeKey h k := by
+    HashLink.PoolMap.removeKey h pt k = pt.removeKey h k := by
   unfold HashLink.PoolMap.removeKey PTable.removeKey
   rw [gen_pool_find]
   cases hf : pt.find h k with
@@ -478,23 +478,23 @@ theorem gen_pool_removeKey {h : Nat → Nat} {pt : PTable} {t : Table} (hr : Rel
     | none => simp [findResult, iterOf]
     | some id =>
       have hm := hr.find_mem hi k id hf
-      simp [findResult, iterOf, gen_pool_removeValue _ _ _ _ (hr.cell_ne_self hi id hm)]
+      simp [findResult, iterOf, gen_pool_removeValue _ _ _ (hr.cell_ne_self hi id hm)]
 
 /-- The translated `removeFront()` / `removeBack()` are `remove(_begin)` / `remove(_end.item->prev)`: the model's `removeItem`
     of the first / last item; a fault on the empty table (`removeBack`: the null `endItem.prev` made an iterator and
     dereferenced; `removeFront`: the fields of the sentinel). -/
-theorem gen_pool_removeFront {h : Nat → Nat} {pt : PTable} {t : Table} (hr : Rel pt t) (hi : t.Inv h) (fuel : Nat) :
-    HashLink.PoolMap.removeFront h fuel pt = (match t.order.head? with | some id => some (pt.removeItem id) | none => none) := by
+theorem gen_pool_removeFront {h : Nat → Nat} {pt : PTable} {t : Table} (hr : Rel pt t) (hi : t.Inv h) :
+    HashLink.PoolMap.removeFront h pt = (match t.order.head? with | some id => some (pt.removeItem id) | none => none) := by
   unfold HashLink.PoolMap.removeFront
   rw [hr.begin_eq]
   cases ho : t.order with
   | nil => simp [HashLink.PoolMap.removeIt]
   | cons x r =>
     have hm : x ∈ t.order := by rw [ho]; exact List.mem_cons_self
-    simp [gen_pool_removeIt_rel hr hi _ x hm]
+    simp [gen_pool_removeIt_rel hr hi x hm]
 
-theorem gen_pool_removeBack {h : Nat → Nat} {pt : PTable} {t : Table} (hr : Rel pt t) (hi : t.Inv h) (fuel : Nat) :
-    HashLink.PoolMap.removeBack h fuel pt = (match pt.endPrev with | some id => some (pt.removeItem id) | none => none) := by
+theorem gen_pool_removeBack {h : Nat → Nat} {pt : PTable} {t : Table} (hr : Rel pt t) (hi : t.Inv h) :
+    HashLink.PoolMap.removeBack h pt = (match pt.endPrev with | some id => some (pt.removeItem id) | none => none) := by
   unfold HashLink.PoolMap.removeBack
   simp only [PTable.prevOf]
   cases he : pt.endPrev with
@@ -503,15 +503,15 @@ theorem gen_pool_removeBack {h : Nat → Nat} {pt : PTable} {t : Table} (hr : Re
     have hm : x ∈ t.order := by
       have := hr.endPrev_eq; rw [he] at this
       exact List.mem_of_getLast? this.symm
-    simp [gen_pool_removeIt_rel hr hi _ x hm]
+    simp [gen_pool_removeIt_rel hr hi x hm]
 
-theorem gen_pool_insert_k2 (h : Nat → Nat) (fuel : Nat) (t : PTable) (pos : Nxt) (k : Nat) (it : Nxt) (item hc : Nat) (c : CellRef) (ip : Nxt) :
-    HashLink.PoolMap.insert_k2 h fuel t pos k it item hc c ip =
+theorem gen_pool_insert_k2 (h : Nat → Nat) (t : PTable) (pos : Nxt) (k : Nat) (it : Nxt) (item hc : Nat) (c : CellRef) (ip : Nxt) :
+    HashLink.PoolMap.insert_k2 h t pos k it item hc c ip =
       some ({ (t.setNext item ip).setPrevOf ip (some item) with size := ((t.setNext item ip).setPrevOf ip (some item)).size + 1 }, .item item) := rfl
 
-theorem gen_pool_insert_k1 (h : Nat → Nat) (fuel : Nat) (t : PTable) (pos : Nxt) (k : Nat) (it : Nxt) (item hc : Nat) (c : CellRef)
+theorem gen_pool_insert_k1 (h : Nat → Nat) (t : PTable) (pos : Nxt) (k : Nat) (it : Nxt) (item hc : Nat) (c : CellRef)
     (hp : pos ≠ .item item) :
-    HashLink.PoolMap.insert_k1 h fuel t pos k it item hc c = some ((t.writeCell c (some item)).linkOrder item pos, .item item) := by
+    HashLink.PoolMap.insert_k1 h t pos k it item hc c = some ((t.writeCell c (some item)).linkOrder item pos, .item item) := by
   unfold HashLink.PoolMap.insert_k1 PTable.linkOrder
   simp only [gen_pool_insert_k2, prevOf_setPrev _ _ _ _ hp]
   cases hq : (t.writeCell c (some item)).prevOf pos <;> rfl
@@ -522,7 +522,7 @@ theorem gen_pool_insert_k1 (h : Nat → Nat) (fuel : Nat) (t : PTable) (pos : Nx
     of the bucket chain, link before `position` – on every table on which the item the allocator hands out is not the one
     `position` designates. -/
 theorem gen_pool_insert (h : Nat → Nat) (t : PTable) (pos : Nxt) (k v : Nat) (hp : pos ≠ .item (t.allocItem Kind.pool).1) :
-    HashLink.PoolMap.insert h t.size t pos k = (t.insert Kind.pool h pos k v).map (fun r => (r.1, Nxt.item r.2)) := by
+    HashLink.PoolMap.insert h t pos k = (t.insert Kind.pool h pos k v).map (fun r => (r.1, Nxt.item r.2)) := by
   unfold HashLink.PoolMap.insert PTable.insert
   rw [gen_pool_find]
   cases hf : t.find h k with
@@ -543,21 +543,21 @@ theorem gen_pool_insert (h : Nat → Nat) (t : PTable) (pos : Nxt) (k v : Nat) (
       cases hfree : t0.freeItem with
       | some f =>
         simp only [hfree, Option.isNone_some, Bool.false_eq_true, if_false] at hp ⊢
-        simp only [gen_pool_insert_k1 _ _ _ _ _ _ _ _ _ hp]
+        simp only [gen_pool_insert_k1 _ _ _ _ _ _ _ _ hp]
         simp only [PTable.constructAt, PTable.setCell, PTable.setNextCell, PTable.readCell, PTable.writeCell, upd_same, upd_upd,
           Table.storedValue, reduceCtorEq, if_false]
         cases hh : t0.heads (h k % t0.cap) <;> rfl
       | none =>
         have e2 : ({ t0 with freeItem := none } : PTable) = t0 := by cases t0; simp_all
         simp only [hfree, Option.isNone_none, if_true, e2, PTable.newBlockAll, pushFree_freeItem] at hp ⊢
-        simp only [gen_pool_insert_k1 _ _ _ _ _ _ _ _ _ hp]
+        simp only [gen_pool_insert_k1 _ _ _ _ _ _ _ _ hp]
         simp only [PTable.constructAt, PTable.setCell, PTable.setNextCell, PTable.readCell, PTable.writeCell, upd_same, upd_upd,
           Table.storedValue, reduceCtorEq, if_false]
         cases hh : (t0.pushFree (t0.ipb * t0.blocks) (t0.ipb - 1 + 1)).heads (h k % (t0.pushFree (t0.ipb * t0.blocks) (t0.ipb - 1 + 1)).cap) <;> rfl
 
 /-- … hence on every table that represents a model state, for every position `p ≤ size` (`size` = `end()`). -/
 theorem gen_pool_insert_rel {h : Nat → Nat} {pt : PTable} {t : Table} (hr : Rel pt t) (hi : t.Inv h) (p k v : Nat) :
-    HashLink.PoolMap.insert h pt.size pt (nxtAt pt.self t.order p) k =
+    HashLink.PoolMap.insert h pt (nxtAt pt.self t.order p) k =
       (pt.insert Kind.pool h (nxtAt pt.self t.order p) k v).map (fun r => (r.1, Nxt.item r.2)) :=
   gen_pool_insert h pt _ k v (hr.alloc_ne_pos hi Kind.pool p)
 
@@ -590,7 +590,7 @@ theorem gen_pool_clear_loop (h : Nat → Nat) (fuel : Nat) : ∀ (t : PTable) (i
 /-- The translated `PoolMap::clear()` is the model's `clear` (`*i->cell = 0; i->prev = freeItem; freeItem = i` along `next`
     up to the own sentinel, then the list members reset), for EVERY table; a fault on a foreign sentinel / out of fuel iff the
     model faults. -/
-theorem gen_pool_clear (h : Nat → Nat) (t : PTable) : HashLink.PoolMap.clear h t.size t = t.clear := by
+theorem gen_pool_clear (h : Nat → Nat) (t : PTable) : HashLink.PoolMap.clear h t = t.clear := by
   unfold HashLink.PoolMap.clear PTable.clear
   rw [gen_pool_clear_loop]
   cases PTable.clearLoop t.size t.begin t <;> rfl
